@@ -171,3 +171,6 @@ def check(ctx):
     # dependency (seed C09-6): a cancelled first reader must not leave the reader count behind
     ctx.import_rules("C12", r"^read/")
     shared.injected_kinds(ctx)
+    shared.cancel_state_encoding(ctx)
+    shared.cancel_api_forwarding(ctx)
+    shared.mutex_cancel_arm_rules(ctx)
